@@ -54,7 +54,7 @@ MonNext ==
         /\ fsd' = o.fsd /\ hd' = o.hd
         /\ hs' = [h \in H |-> [pc |-> o.hs[h].pc, n |-> o.hs[h].n, l |-> o.hs[h].l, b |-> o.hs[h].b,
                                fd |-> o.hs[h].fd, hdp |-> o.hs[h].hdp]]
-    /\ lock' = lock /\ nres' = 0 /\ nfault' = 0
+    /\ lock' = lock /\ nres' = 0 /\ nfault' = 0 /\ nbreak' = 0
     /\ last' = [act |-> Ev.ev,
                 h |-> IF Has("h") THEN Ev.h ELSE 0,
                 n |-> IF Has("n") THEN Ev.n ELSE NoName,
